@@ -67,8 +67,11 @@ class PatchConflict(BzrError):
             patch_line: Expected line content from patch.
         """
         self.line_no = line_no
-        self.orig_line = orig_line.rstrip("\n")
-        self.patch_line = patch_line.rstrip("\n")
+        # The patcher works on bytes.
+        self.orig_line = orig_line.rstrip(b"\n" if isinstance(orig_line, bytes) else "\n")
+        self.patch_line = patch_line.rstrip(
+            b"\n" if isinstance(patch_line, bytes) else "\n"
+        )
 
 
 class MalformedHunkHeader(PatchSyntax):
